@@ -27,6 +27,7 @@ type Spy struct {
 	NWrite      int
 	NFlush      int
 	NHijack     int
+	NWH         int  // WriteHeader calls with a valid code so far
 	HijackFails bool // the underlying connection cannot be taken over: Hijack returns an error
 	CountOnly   bool // do not store body bytes, only count them (bulk histories)
 	Count       int64
@@ -68,6 +69,14 @@ func (s *Spy) WriteHeader(code int) {
 			s.refuseTo.ev(EvSpyRefuse, 0, code, "substitute")
 		}
 		panic("invalid WriteHeader code " + itoa(code))
+	}
+	nth := s.NWH
+	s.NWH++
+	for _, f := range s.plan {
+		if f.Kind == 4 && f.At == nth { // the writer underneath fails this call outright (an HTTP/2 stream that is gone, a broken middleware writer)
+			s.req.ev(EvSpyRefuse, 0, code, "underlying-failure")
+			panic("underlying writer: WriteHeader failed")
+		}
 	}
 	s.sendStatus(code, false)
 }
